@@ -601,6 +601,12 @@ func suiteC09(c *Ctx) []Suite {
 				if !sessFirst {
 					steps = append(steps, m.sessSteps(c.R))
 				}
+				if c.R.Intn(3) == 0 {
+					// a driver that sets the wait bit unconditionally: on a message whose wait bit
+					// is fixed this is a no-op, whatever is asked for
+					at := 1 + c.R.Intn(len(steps))
+					steps = append(steps[:at], append([]string{fmt.Sprintf("wait %d", c.R.Intn(2))}, steps[at:]...)...)
+				}
 				op := "mprog " + strings.Join(steps, " | ")
 				impl := implEval(op)
 				cs := Case{Op: op, Impl: impl, Decisive: true, Nontrivial: true, Tags: []string{fmt.Sprintf("sessFirst:%v", sessFirst)}}.fields("name s f w dir sid sys bytes vars")
@@ -796,9 +802,30 @@ func ellipsisCases(c *Ctx, n int, maxDepth int, maxCount int) []Case {
 				}
 				parts = append(parts, hxs(k), tok)
 			}
-			// sometimes fill an ordinary variable in the same call, or a later step
-			op := "fillitem " + tmpl.Proto() + " | " + fmt.Sprint(len(keys)) + " " + strings.Join(parts, " ")
+			// one time in six a count under a name that names no ellipsis of this template - the
+			// unindexed or the indexed spelling of one that exists, or one index too far: ignored
+			nkeys := len(keys)
+			if c.R.Intn(6) == 0 {
+				has := map[string]bool{}
+				for _, e := range ells {
+					has[e] = true
+				}
+				for _, alias := range []string{"...", "...[0]", fmt.Sprintf("...[%d]", len(ells)), "...[1]"} {
+					if !has[alias] {
+						parts = append(parts, hxs(alias), sintTok(0, int64(1+c.R.Intn(2))))
+						nkeys++
+						break
+					}
+				}
+			}
+			op := "fillitem " + tmpl.Proto() + " | " + fmt.Sprint(nkeys) + " " + strings.Join(parts, " ")
 			op = strings.TrimSpace(op)
+			if nkeys > 0 && c.R.Intn(8) == 0 {
+				// the same table applied to the result once more: the ellipses that are left have been
+				// renumbered, a stale name expands whatever carries it now and nothing else
+				op += " | " + fmt.Sprint(nkeys) + " " + strings.Join(parts, " ")
+				wrongType = "second-step"
+			}
 			cs := Case{Op: op, Decisive: true, Nontrivial: len(keys) > 0,
 				Tags: []string{fmt.Sprintf("ellipses:%d filled:%d depth:%d", len(ells), len(keys), tmpl.Depth())}}.fields(itemKeys)
 			hasIdx := false
@@ -810,8 +837,13 @@ func ellipsisCases(c *Ctx, n int, maxDepth int, maxCount int) []Case {
 			if !hasIdx && wrongType == "" {
 				cs.Oracle = ellipsisOracle(tmpl, asg)
 			}
-			if wrongType != "" {
+			if wrongType == "second-step" {
+				cs.Tags = append(cs.Tags, "same-table-twice")
+			} else if wrongType != "" {
 				cs.Tags = append(cs.Tags, "count-of-wrong-type")
+			}
+			if nkeys > len(keys) {
+				cs.Tags = append(cs.Tags, "alias-key")
 			}
 			out = append(out, cs)
 		}
